@@ -575,7 +575,10 @@ READ_ONLY = ("correlation_distance", "inv_correlation_distance",
              "local_correlation_distance_weighted_vulnerability",
              "average_link_distance", "max_link_distance",
              "area_weighted_connectivity", "nsi_degree",
-             "cross_correlation_max", "mutual_information", "spearman_corr")
+             "cross_correlation_max", "mutual_information", "spearman_corr",
+             # dropping derived matrices by hand, and reading them back
+             "clear_cache", "cache_clear", "phase_shift", "coherence",
+             "correlation_lag", "correlation_strength")
 
 
 def history(ctx, rng, net, m, length, cid):
